@@ -125,14 +125,17 @@ def stage(repo=None, need_ast=False):
             os.rename(tmp, d)
             _prune(keep=d)
         else:
-            os.utime(os.path.join(d, 'OK'), None)
+            try:
+                os.utime(os.path.join(d, 'OK'), None)
+            except OSError:
+                pass
     finally:
         fcntl.flock(lock, fcntl.LOCK_UN)
         lock.close()
     return Stage(d, repo)
 
 
-def _prune(keep, maxn=6):
+def _prune(keep, maxn=48, max_age=1800):
     ents = []
     for n in os.listdir(CACHE):
         p = os.path.join(CACHE, n)
@@ -142,8 +145,10 @@ def _prune(keep, maxn=6):
             except OSError:
                 ents.append((0, p))
     ents.sort(reverse=True)
-    for _, p in ents[maxn:]:
-        if p != keep:
+    now = time.time()
+    # never remove a stage another concurrent check may still be reading: only old ones go
+    for mt, p in ents[6:]:
+        if p != keep and (now - mt > max_age or ents.index((mt, p)) >= maxn):
             shutil.rmtree(p, ignore_errors=True)
             try:
                 os.unlink(os.path.join(CACHE, 'lock-' + os.path.basename(p)[6:]))
